@@ -8,6 +8,29 @@ WHAT = {"P20-abort-reported-as-success": "the terminal aborted the operation but
         "P20-device-missing-not-pin": "'device missing' during a reservation was not translated to 'needs PIN entry'"}
 
 
+def amounts_and_pace():
+    """Every abort code in the release of a commit whose final amount is at or above the pre-authorised one (nothing to release) and just
+    below it; and aborts that arrive late - status informations 25 s or 40 s apart first, every gap inside the per-packet timeout, the
+    abort more than the timeout after the request."""
+    okp = {"o": "ok", "status": {"amount": [1]}}
+    out = []
+    for code in range(256):
+        for amt in ([2, 5, 0, 0], [2, 5, 0, 1], [2, 4, 9, 9], [9] * 12):
+            if code % 4 != len(amt) % 4 and amt != [2, 5, 0, 0]:
+                continue
+            out.append({"config": {"max": 1}, "calls": [{"op": "begin", "token": [97], "amount": []}, {"op": "commit", "token": [97], "amount": amt}],
+                        "plan": {"exchanges": [okp, {"o": "abort", "code": code}], "default": okp}})
+    for code in (0x6c, 0xb7, 5, 0xff, 0x64):
+        for gap in (25000, 40000):
+            late = {"o": "abort", "code": code, "inter": 2, "delays": [gap, gap, gap, gap]}
+            for calls, at in (([{"op": "begin", "token": [97], "amount": []}], 0),
+                              ([{"op": "begin", "token": [97], "amount": []}, {"op": "commit", "token": [97], "amount": [1]}], 1),
+                              ([{"op": "begin", "token": [97], "amount": []}, {"op": "cancel", "token": [97], "amount": []}], 1),
+                              ([{"op": "configure"}], 0), ([{"op": "configure"}], 2)):
+                out.append({"config": {"max": 1}, "calls": calls, "plan": {"exchanges": [okp] * at + [late], "default": okp}})
+    return out
+
+
 def run(chk):
     wd = vlib.workdir("C20")
     thorough = chk.tier == "thorough"
@@ -15,11 +38,13 @@ def run(chk):
     cl.model_check(chk, 3, big=False, configure=True)
     sc = cl.gen_scenarios(chk, "C20", thorough)
     scripts = cl.script_walks(chk, binary, wd, chk.seed + 20, 3000 if thorough else 250)
-    out = cl.run_scenarios(binary, sc + scripts, wd, "c20")
+    paced = amounts_and_pace()
+    out = cl.run_scenarios(binary, sc + scripts + paced, wd, "c20")
     outs, ifl, pfl = cl.validate(chk, out, wd, "c20", shard=600)
     cl.report(chk, outs, ifl, pfl, {"P20", "abnormal"}, WHAT)
     chk.cov["traces_validated_against_impl"] = len(outs)
     chk.cov["reply_script_walks"] = len(scripts)
+    chk.cov["amount_and_pace_histories"] = len(paced)
     chk.cov["evaluations"] = len(outs)
     chk.cov["distinct_nontrivial"] = len(sc)
     chk.cov["rule"] = ("TLC generates: result codes (%s) x operations {read_card, begin, commit, cancel, configure; with and without a dangling "
